@@ -22,7 +22,6 @@ def run(prog, rep, tier):
     apply(rep, "K3", "exit status constants", r_cli.k3(prog), 10)
     apply(rep, "K4", "per-input handlers record errors", r_cli.k4(prog), 2)
     apply(rep, "K4b", "the error is recorded whether or not -s silences its text (error_message interpreted)", r_cli.k4b(prog), 1)
-    apply(rep, "K6", "no execution when there is no combination of argument values", r_cli.k6(prog), 1)
     apply(rep, "K5", "status flags accumulate over all inputs", r_cli.k5(prog), 2)
     apply(rep, "K7", "`-a X` passes X itself as one string value (parse_arg_literal interpreted with the libzwerg API modelled)", r_cli.k7(prog), 1)
     apply(rep, "K9", "query scripts are read sequentially (no seek/tell on input streams: -f - may be a pipe)", r_cli.k9(prog), 1)
